@@ -78,32 +78,13 @@ Theorem C20_export_faithful_refuted :
 Proof. exact export_faithful_refuted. Qed.
 Print Assumptions C20_export_faithful_refuted.
 
-(* ... and for worlds / access under SerialAccess (D): the world added by enforce()
-   has no frame, so neither it nor its reflexive pair is exported *)
-Theorem C20_export_access_refuted :
+(* BEFORE fix 422cec3 (run_old) the clause "exported worlds / access = R" failed under
+   SerialAccess (D): the world added by enforce() had no frame and was not exported *)
+Theorem C20_export_access_old_refuted :
   exists L st,
-    run L [] (fun _ => []) [OAtomic 0 0 VT] = Some st /\ ml_modal L = true /\
+    run_old L [] (fun _ => []) [OAtomic 0 0 VT] = Some st /\ ml_modal L = true /\
     In (1, 1) (ap (s_R st)) /\ In 1 (aw (s_R st)) /\
     ~ In (1, 1) (x_access (export L st)) /\ ~ In 1 (x_worlds (export L st)) /\
     value_of L st (SMod Possibility (SMod Possibility (SAtom 0))) 0 = Val VF.
-Proof. exact export_access_refuted. Qed.
-Print Assumptions C20_export_access_refuted.
-
-(* the hypotheses of export_faithful hold after every history of API calls; and unless the
-   logic's access class is SerialAccess the exported access relation is exactly R *)
-From PT Require Import Sem.ModelRun Sem.ReachProofs.
-Theorem C20_export_faithful_history L cord pord os st :
-  vals_closed L = true -> (ml_classical L = true -> val_ok L VT = true) ->
-  forallb (op_ok L) os = true ->
-  (forall st0, apply_ops L init_state os = Some st0 -> forall c, In c cord -> In c (s_consts st0)) ->
-  run L cord pord os = Some st ->
-  state_wfb L st = true /\ s_finished st = true /\
-  (ml_modal L = true -> ml_access L <> AKSerial ->
-   forall a b, In (a, b) (x_access (export L st)) <-> In (a, b) (ap (s_R st))).
-Proof.
-  intros VC CT OK Hc Hr.
-  destruct (run_wf L cord pord os st VC CT OK Hc Hr) as [WF [AW [F Sub]]].
-  split; [exact WF|]. split; [exact F|].
-  intros M NS. apply (export_access_exact L st M AW (Sub NS)).
-Qed.
-Print Assumptions C20_export_faithful_history.
+Proof. exact export_access_old_refuted. Qed.
+Print Assumptions C20_export_access_old_refuted.
